@@ -652,6 +652,22 @@ func directedMerc() []mercIn {
 			out = append(out, in)
 		}
 	}
+	// v4 market status without f+1 agreement (seeded C07-C): statuses split so that no value has f+1 valid votes, or
+	// nobody could observe it: no report may carry a status nobody agreed on
+	for _, sp := range []struct {
+		f     int
+		stats []int // 0 = invalid flag
+	}{{1, []int{1, 2, 3, 0}}, {1, []int{0, 0, 0, 0}}, {1, []int{1, 2, 0, 0}}, {2, []int{1, 1, 2, 2, 3, 3, 0}}, {2, []int{1, 1, 2, 2, 3, 0, 0}}, {1, []int{2, 2, 1, 0}}} {
+		in := mercIn{Cfg: mercCfg{Ver: 4, F: sp.f, Min: "0", Max: "1000000", Window: 10, MaxLen: 400}}
+		rd := mercRound{Mode: "ok", Prev: "none"}
+		for i, st := range sp.stats {
+			o := mercObs{Honest: true, Ts: 5000 + uint32(i), PV: true, Bm: i192(big.NewInt(500)), Bid: i192(big.NewInt(499)), Ask: i192(big.NewInt(501)),
+				MfV: true, Mf: 100, LV: true, Link: i192(big.NewInt(1)), NV: true, Native: i192(big.NewInt(2)), SV: st != 0, Status: uint32(st)}
+			rd.Obs = append(rd.Obs, o)
+		}
+		in.Rounds = []mercRound{rd}
+		out = append(out, in)
+	}
 	// bootstrap with failed max-finalized fetches (seeded C09-C): k observers agree on a valid value, the other
 	// n-k carry the invalid flag (and whatever number, here 0 / -1 / the same value): an invalid entry is not a vote
 	for ver := 1; ver <= 4; ver++ {
